@@ -17,9 +17,9 @@ import (
 
 // Step / RunSpec mirror the child's types (payload/verifharness/world/spec.go).
 type Step struct {
-	Slot int    `json:"slot"`
-	Task int    `json:"task"`
-	Op   uint64 `json:"op"`
+	Slot  int    `json:"slot"`
+	Task  int    `json:"task"`
+	Op    uint64 `json:"op"`
 	Ev    string `json:"ev,omitempty"`
 	Arg   int    `json:"arg,omitempty"`
 	Round int    `json:"round,omitempty"`
@@ -96,7 +96,8 @@ type RunResult struct {
 // RaceReport is one ThreadSanitizer report.
 type RaceReport struct {
 	Text      string
-	InFrugal  bool
+	InFrugal  bool     // at least one of the two racing accesses is made by frugal's own code
+	Accessors []string // innermost non-runtime frame of each access
 	TopFrames []string
 }
 
@@ -110,7 +111,7 @@ type ChildOpts struct {
 }
 
 // childSlots bounds the number of child processes alive at once (checks nest parallel phases).
-var childSlots = make(chan struct{}, 12)
+var childSlots = make(chan struct{}, 5)
 
 func runChild(o ChildOpts) *RunResult {
 	childSlots <- struct{}{}
@@ -289,27 +290,31 @@ func parseRaces(stderr string) []RaceReport {
 			continue
 		}
 		rr := RaceReport{Text: strings.TrimSpace(p)}
-		// the two access stacks: frames up to the first blank line after "Write at"/"Read at"/"Previous ..."
+		// the two access stacks; the accessor of each is its innermost frame outside the Go runtime
 		lines := strings.Split(p, "\n")
-		inAccess := false
+		inAccess, needAccessor := false, false
 		for _, l := range lines {
 			t := strings.TrimSpace(l)
 			switch {
 			case strings.HasPrefix(t, "Write at") || strings.HasPrefix(t, "Read at") || strings.HasPrefix(t, "Previous write at") ||
 				strings.HasPrefix(t, "Previous read at") || strings.HasPrefix(t, "Atomic") || strings.HasPrefix(t, "Previous atomic"):
-				inAccess = true
+				inAccess, needAccessor = true, true
 			case t == "":
 				inAccess = false
 			case strings.HasPrefix(t, "Goroutine ") || strings.HasPrefix(t, "Location"):
 				inAccess = false
 			default:
 				if inAccess && !strings.HasPrefix(t, "/") && strings.Contains(t, "(") {
-					fn := t[:strings.Index(t, "(")]
+					fn := strings.TrimSuffix(t, "()")
 					if len(rr.TopFrames) < 12 {
 						rr.TopFrames = append(rr.TopFrames, fn)
 					}
-					if strings.HasPrefix(fn, "github.com/cloudwego/frugal") && !strings.Contains(fn, "/verifharness/") && !strings.Contains(fn, "/internal/verifsim") {
-						rr.InFrugal = true
+					if needAccessor && !strings.HasPrefix(fn, "runtime.") {
+						needAccessor = false
+						rr.Accessors = append(rr.Accessors, fn)
+						if isFrugalFn(fn) {
+							rr.InFrugal = true
+						}
 					}
 				}
 			}
@@ -319,12 +324,16 @@ func parseRaces(stderr string) []RaceReport {
 	return out
 }
 
+func isFrugalFn(fn string) bool {
+	return strings.HasPrefix(fn, "github.com/cloudwego/frugal") && !strings.Contains(fn, "/verifharness/") && !strings.Contains(fn, "/internal/verifsim")
+}
+
 // raceSig builds a stable signature from the frugal functions on the access stacks.
 func raceSig(rr RaceReport) string {
 	var fs []string
 	seen := map[string]bool{}
-	for _, f := range rr.TopFrames {
-		if strings.HasPrefix(f, "github.com/cloudwego/frugal") && !strings.Contains(f, "/verifharness/") && !strings.Contains(f, "/internal/verifsim") {
+	for _, f := range rr.Accessors {
+		if isFrugalFn(f) {
 			short := f[strings.LastIndex(f, "/")+1:]
 			if !seen[short] {
 				seen[short] = true
